@@ -11,6 +11,7 @@ package c17
 
 import (
 	"bytes"
+	"encoding/json"
 	"errors"
 	"fmt"
 
@@ -610,7 +611,8 @@ func runRbf(p *pair, c RbfCase, tr tracer) verdict {
 	r.scripts = [2][]byte{deliveryScript(c.SA, 0), deliveryScript(c.SB, 1)}
 	r.fail = func(sig, f string, a ...any) verdict {
 		v.sig = "rbf:" + sig + ":" + tag
-		v.what = fmt.Sprintf(f, a...) + fmt.Sprintf(" [%s case %+v gross=%v dust=%v opener=%s]", p.src.Name(), c, p.gross, p.dust, partyName(p.opener))
+		cj, _ := json.Marshal(c)
+		v.what = fmt.Sprintf(f, a...) + fmt.Sprintf(" [%s case %s gross=%v dust=%v opener=%s]", p.src.Name(), cj, p.gross, p.dust, partyName(p.opener))
 		v.class = "VIOLATION:" + sig
 		return v
 	}
